@@ -19,12 +19,30 @@ Definition model_same2 (c : rcase) : option bool :=
              end
   end.
 
-Definition agree05 (c : rcase) : bool :=
+(* a C05 case: the case of the re-indexing engine plus what the SECOND encode() was observed to emit (decoded like
+   the first; None = the second encode panicked, or no first encoding exists) *)
+Record rcase2 := mkRC2 { rc2 : rcase; o_enc2 : option emod }.
+
+Definition optE_eqb (a b : option emod) : bool :=
+  match a, b with Some x, Some y => emod_eqb x y | None, None => true | _, _ => false end.
+
+(* the model agrees with the implementation on the history, on the first encoding, on the CONTENT of the second
+   encoding (or on its panic), and on whether the two real byte strings were equal *)
+Definition is_none_e (o : option emod) : bool := match o with None => true | Some _ => false end.
+Definition agree05 (c2 : rcase2) : bool :=
+  let c := rc2 c2 in
   agree c &&
   (if o_api_panic c then true
-   else match model_same2 c with
-        | Some b => encoded c && Bool.eqb b (o_same2 c)
-        | None => negb (encoded c)
+   else let m := final_model c in
+        let dead := dead_exports (h_ops c) in
+        match encode m dead (sites c) with
+        | Panic _ => negb (encoded c)
+        | Ok e1 =>
+            encoded c &&
+            match encode_again m dead (sites c) with
+            | Ok e2 => optE_eqb (Some e2) (o_enc2 c2) && Bool.eqb (emod_eqb e1 e2) (o_same2 c)
+            | Panic _ => is_none_e (o_enc2 c2) && negb (o_same2 c)
+            end
         end).
 
 (* D01: the id maps are re-applied by a second encode.  The class is decided on the input through the model: the
@@ -44,7 +62,8 @@ Definition settled_space (s : space) : bool :=
   end.
 Definition settled (m : mst) : bool := settled_space (m_f m) && settled_space (m_g m) && settled_space (m_m m).
 
-Definition verdict05 (c : rcase) : Util.verdict :=
-  (agree05 c, negb (o_api_panic c) && encoded c, o_same2 c, cls c [K 1 known_D01]).
+Definition verdict05 (c2 : rcase2) : Util.verdict :=
+  let c := rc2 c2 in
+  (agree05 c2, negb (o_api_panic c) && encoded c, o_same2 c, cls c [K 1 known_D01]).
 
 Definition report_C05 := run_report verdict05.
